@@ -108,6 +108,7 @@ static void snapshot_sig(sbuf *b)
 static uint64_t woff[3];  // bytes written so far per logical stream (1, 2)
 static uint64_t roff;     // bytes read so far from stdin
 static int nb_done[3];
+static int g_text;  // map NUL bytes to 1 (for strlen-based string sinks)
 
 static void make_nonblocking(int fd)
 {
@@ -141,6 +142,7 @@ int vchild_run(const char *sockpath, const char *flags, const char *tag,
     signal(SIGTERM, h15);
   }
   if (flags && strstr(flags, "ignpipe")) signal(SIGPIPE, SIG_IGN);
+  if (flags && strstr(flags, "text")) g_text = 1;
 
   int s = socket(AF_UNIX, SOCK_STREAM | SOCK_CLOEXEC, 0);
   if (s < 0) _exit(113);
@@ -190,6 +192,9 @@ int vchild_run(const char *sockpath, const char *flags, const char *tag,
         if (chunk > (long) sizeof buf) chunk = (long) sizeof buf;
         for (long i = 0; i < chunk; i++)
           buf[i] = (char) poscode((unsigned) fd, woff[fd] + (uint64_t) i);
+        if (g_text)
+          for (long i = 0; i < chunk; i++)
+            if (!buf[i]) buf[i] = 1;
         ssize_t r = write(fd, buf, (size_t) chunk);
         if (r < 0) {
           if (errno == EINTR) continue;
